@@ -163,9 +163,11 @@ class RungeKuttaIntegrator(TableauIntegrator, abc.ABC):
     def __call__(self, rhs, initial_time, initial_state, constants, timestep):
         if self.__unfinished_call:
             # The previous call was interrupted (the right-hand side or the solver raised, tolerances could not be met):
-            # its half-solved stage values, which seed the predictor, the quasi-Newton Jacobian updated from them and
-            # the extended-precision flag must not leak into this call
+            # its half-solved stage values, which seed the predictor, the quasi-Newton Jacobian updated from them, the
+            # extended-precision flag and the cached end slope (possibly the non-finite value that made it fail) must
+            # not leak into this call
             self.stage_values = D.ar_numpy.zeros_like(self.stage_values)
+            self.final_rhs = None
             if not self._explicit:
                 self.__rhs_jac = None
             self._requires_high_precision = False
@@ -176,9 +178,11 @@ class RungeKuttaIntegrator(TableauIntegrator, abc.ABC):
         self.initial_rhs = None
         
         # The slope cached at the end of the previous step is only valid if this step starts there,
-        # not after a rejected/failed/rolled-back step or when called from a different state
+        # not after a rejected/failed/rolled-back step or when called from a different state; a non-finite
+        # cached slope (a transient failure of the right-hand side) is evaluated afresh instead of being kept for good
         if self.final_rhs is not None and self.final_time is not None and \
-                bool(D.ar_numpy.all(self.final_time == initial_time)) and bool(D.ar_numpy.all(self.final_state == initial_state)):
+                bool(D.ar_numpy.all(self.final_time == initial_time)) and bool(D.ar_numpy.all(self.final_state == initial_state)) and \
+                bool(D.ar_numpy.all(D.ar_numpy.isfinite(self.final_rhs))):
             self.initial_rhs = self.final_rhs
             if self.is_fsal:
                 self.stage_values[...,0] = self.final_rhs
